@@ -53,7 +53,9 @@ try:
     res["checks"] = {}
     for c in checks:
         t0 = time.time()
-        r = sh("cd %s && VERIF_REPO=%s VERIF_SEED=%s ./check %s --tier %s" % (ROOT, repo, seed, c, tier), timeout=6000)
+        evd = tempfile.mkdtemp(prefix="vh-seed-ev-")
+        r = sh("cd %s && VERIF_EVIDENCE_DIR=%s VERIF_REPO=%s VERIF_SEED=%s ./check %s --tier %s" % (ROOT, evd, repo, seed, c, tier), timeout=6000)
+        shutil.rmtree(evd, ignore_errors=True)
         lines = [l for l in r.stdout.splitlines() if l.startswith(("VIOLATION", "KNOWN", c, "  what", "INTERNAL", "  no longer"))]
         res["checks"][c] = {"rc": r.returncode, "lines": [l[:300] for l in lines[:8]], "wall": round(time.time() - t0, 1)}
 finally:
